@@ -1039,10 +1039,14 @@ func (ro *RedisOutput) sendCmdsBatch(replayWait usync.WaitCloser, conn client.Re
 		delayNs    int64
 	}
 	var pipeline chan *cmdBatcher
+	// set by the pipelined receiver when a batch failed : nothing more may be sent after that, in particular
+	// no resume position, which would cover the commands of the failed batch
+	var recvFailed atomic.Bool
 
 	if isPipeline {
 		pipeline = make(chan *cmdBatcher, 2)
 		handleError := func(bat *cmdBatcher, err error) {
+			recvFailed.Store(true)
 			if errors.Is(err, common.ErrMove) || errors.Is(err, common.ErrAsk) || errors.Is(err, common.ErrCrossSlots) {
 				// @TODO split cmdQueue to different slots for executing,
 				if ro.cfg.CanTransaction && ro.cfg.Redis.IsCluster() {
@@ -1201,6 +1205,12 @@ func (ro *RedisOutput) sendCmdsBatch(replayWait usync.WaitCloser, conn client.Re
 	sendFunc := func(shouldInTransaction, shouldUpdateCP bool, lastOffset int64) error {
 		maxRetries := 0
 		for {
+			if recvFailed.Load() {
+				if err := replayWait.Error(); err != nil {
+					return err
+				}
+				return errors.New("a pipelined batch failed")
+			}
 			err := sendFuncOnce(shouldInTransaction, shouldUpdateCP, lastOffset)
 			if err == nil {
 				return err
